@@ -794,6 +794,18 @@ designator(struct scope *s, struct type *t, unsigned long long *offset)
 	}
 }
 
+/* type name argument of a builtin */
+static struct type *
+builtintype(struct scope *s, enum typequal *tq, struct expr **toeval)
+{
+	struct type *t;
+
+	t = typename(s, tq, toeval);
+	if (!t)
+		error(&tok.loc, "expected type name as builtin argument");
+	return t;
+}
+
 static struct expr *
 builtinfunc(struct scope *s, enum builtinkind kind)
 {
@@ -833,7 +845,7 @@ builtinfunc(struct scope *s, enum builtinkind kind)
 		e->u.constant.f = strtod("nan", NULL);
 		break;
 	case BUILTINOFFSETOF:
-		t = typename(s, NULL, NULL);
+		t = builtintype(s, NULL, NULL);
 		expect(TCOMMA, "after type name");
 		name = expect(TIDENT, "after ','");
 		if (t->kind != TYPESTRUCT && t->kind != TYPEUNION)
@@ -847,9 +859,9 @@ builtinfunc(struct scope *s, enum builtinkind kind)
 		free(name);
 		break;
 	case BUILTINTYPESCOMPATIBLEP:
-		t = typename(s, NULL, NULL);
+		t = builtintype(s, NULL, NULL);
 		expect(TCOMMA, "after type name");
-		e = mkconstexpr(&typeint, typecompatible(t, typename(s, NULL, NULL)));
+		e = mkconstexpr(&typeint, typecompatible(t, builtintype(s, NULL, NULL)));
 		break;
 	case BUILTINUNREACHABLE:
 		e = mkexpr(EXPRBUILTIN, &typevoid, NULL);
@@ -863,7 +875,7 @@ builtinfunc(struct scope *s, enum builtinkind kind)
 		if (typeadjvalist == targ->typevalist)
 			e->base = mkunaryexpr(TBAND, e->base);
 		expect(TCOMMA, "after va_list");
-		e->type = typename(s, &e->qual, &toeval);
+		e->type = builtintype(s, &e->qual, &toeval);
 		e->toeval = toeval;
 		break;
 	case BUILTINVACOPY:
